@@ -125,7 +125,7 @@ fn raw_dump(p: &Path) -> String {
         }
         libc::S_IFREG => {
             let data = std::fs::read(p).unwrap_or_default();
-            format!("f{:x}{}:{}", perm, ser_xattrs(&host_xattrs(p)), hex(&data))
+            format!("f{:x}{}:{}", perm, ser_xattrs(&host_xattrs(p)), hexd(&data))
         }
         libc::S_IFLNK => {
             let t = std::fs::read_link(p).map(|t| t.as_os_str().as_bytes().to_vec()).unwrap_or_default();
@@ -165,6 +165,14 @@ fn materialise(root: &Path, w: &[&str]) {
                 set_xattr(&p, k, &unhex(v));
             }
         }
+        "B" => {
+            // big file: ent <layer> B <path> <permhex> <size>  (byte i = (i * 31 + 7) % 251)
+            let n: usize = w[3].parse().unwrap();
+            let data: Vec<u8> = (0..n).map(|i| ((i * 31 + 7) % 251) as u8).collect();
+            std::fs::write(&p, data).unwrap();
+            let perm = u32::from_str_radix(w[2], 16).unwrap();
+            std::fs::set_permissions(&p, std::fs::Permissions::from_mode(perm)).unwrap();
+        }
         "L" => {
             let t = unhex(w[2]);
             std::os::unix::fs::symlink(std::ffi::OsStr::from_bytes(&t), &p).unwrap();
@@ -183,6 +191,18 @@ fn materialise(root: &Path, w: &[&str]) {
 //   o no_open  d no_opendir  w writeback  k killpriv_v2  r no_readdir  a cache_policy=Always  n cache_policy=Never
 //   x perfile_dax  m do_import=false (everything the client offers is taken)  L the layers negotiate no_open/no_opendir too
 //   i init() is called at all (implied by every other letter except r, a, n)
+// file contents longer than 64 KiB are printed as #<length>:<FNV-1a 64>
+fn hexd(b: &[u8]) -> String {
+    if b.len() <= 65536 {
+        return hex(b);
+    }
+    let mut h: u64 = 0xcbf29ce484222325;
+    for x in b {
+        h ^= *x as u64;
+        h = h.wrapping_mul(0x100000001b3);
+    }
+    format!("#{}:{:x}", b.len(), h)
+}
 fn new_layer(dir: &Path, cfg: &str) -> std::io::Result<Arc<BoxedLayer>> {
     let mut config = passthrough::Config::default();
     config.root_dir = dir.to_string_lossy().into_owned();
@@ -254,6 +274,8 @@ struct Ovl<'a> {
     // file's open flags travel in every READ / WRITE
     noopen: bool,
     noopendir: bool,
+    // lookup counts the client holds per inode (every entry reply counts, as in the kernel), for exact FORGETs
+    cnt: std::cell::RefCell<std::collections::HashMap<u64, u64>>,
 }
 fn parse_flags(spec: &str) -> i32 {
     match spec {
@@ -284,13 +306,21 @@ fn parse_flags(spec: &str) -> i32 {
 }
 type R<T> = std::io::Result<T>;
 impl<'a> Ovl<'a> {
+    fn got(&self, ino: u64) {
+        *self.cnt.borrow_mut().entry(ino).or_insert(0) += 1;
+    }
+    fn lk(&self, parent: u64, name: &CStr) -> R<fuse_backend_rs::api::filesystem::Entry> {
+        let e = self.fs.lookup(&self.ctx, parent, name)?;
+        self.got(e.inode);
+        Ok(e)
+    }
     fn walk(&self, path: &str) -> R<u64> {
         let mut ino = ROOT;
         if path == "." || path.is_empty() {
             return Ok(ino);
         }
         for c in path.split('/') {
-            let e = self.fs.lookup(&self.ctx, ino, &cstr(c))?;
+            let e = self.lk(ino, &cstr(c))?;
             ino = e.inode;
         }
         Ok(ino)
@@ -309,7 +339,8 @@ impl<'a> Ovl<'a> {
             let mut got = 0;
             let mut last = off;
             let r = if plus {
-                self.fs.readdirplus(&self.ctx, ino, h, size, off, &mut |d, _e| {
+                self.fs.readdirplus(&self.ctx, ino, h, size, off, &mut |d, e| {
+                    self.got(e.inode);
                     got += 1;
                     last = d.offset;
                     let n = String::from_utf8_lossy(d.name).into_owned();
@@ -467,7 +498,7 @@ impl<'a> Ovl<'a> {
                 all.sort();
                 for n in all {
                     let in_list = listed.iter().find(|x| x.0 == n);
-                    match self.fs.lookup(&self.ctx, ino, &cstr(&n)) {
+                    match self.lk(ino, &cstr(&n)) {
                         Ok(e) => {
                             if in_list.is_none() {
                                 s.push_str(&format!("!unlisted-{},", n));
@@ -499,7 +530,7 @@ impl<'a> Ovl<'a> {
                 match self.read_all(ino, 0, None) {
                     Ok(b) => {
                         let c2 = if b.len() as i64 != st.st_size { "!size" } else { "" };
-                        format!("f{:x}{}{}{}:{}", perm, xs, chk, c2, hex(&b))
+                        format!("f{:x}{}{}{}:{}", perm, xs, chk, c2, hexd(&b))
                     }
                     Err(e) => format!("f{:x}{}{}!rerr{}", perm, xs, chk, errno(&e)),
                 }
@@ -534,7 +565,7 @@ impl<'a> Ovl<'a> {
             "lookup" => {
                 let (p, n) = Self::split(w[1]);
                 let pi = self.walk(p)?;
-                let e = self.fs.lookup(c, pi, &cstr(n))?;
+                let e = self.lk(pi, &cstr(n))?;
                 Ok(Self::kind_of(&e.attr))
             }
             "getattr" => {
@@ -565,6 +596,7 @@ impl<'a> Ovl<'a> {
                 let mode = u32::from_str_radix(w[2], 16).unwrap();
                 let args = CreateIn { flags: (libc::O_RDWR | libc::O_CREAT | libc::O_EXCL) as u32, mode: libc::S_IFREG | mode, umask: 0, fuse_flags: 0 };
                 let (e, h, _, _) = self.fs.create(c, pi, &cstr(n), args)?;
+                self.got(e.inode);
                 if let Some(h) = h {
                     let _ = self.fs.release(c, e.inode, 0, h, false, false, None);
                 }
@@ -575,6 +607,7 @@ impl<'a> Ovl<'a> {
                 let pi = self.walk(p)?;
                 let mode = u32::from_str_radix(w[2], 16).unwrap();
                 let e = self.fs.mkdir(c, pi, &cstr(n), mode, 0)?;
+                self.got(e.inode);
                 Ok(Self::kind_of(&e.attr))
             }
             "mknod" => {
@@ -582,6 +615,7 @@ impl<'a> Ovl<'a> {
                 let pi = self.walk(p)?;
                 let mode = u32::from_str_radix(w[2], 16).unwrap();
                 let e = self.fs.mknod(c, pi, &cstr(n), libc::S_IFREG | mode, 0, 0)?;
+                self.got(e.inode);
                 Ok(Self::kind_of(&e.attr))
             }
             "symlink" => {
@@ -589,6 +623,7 @@ impl<'a> Ovl<'a> {
                 let pi = self.walk(p)?;
                 let t = unhex(w[2]);
                 let e = self.fs.symlink(c, &CString::new(t).unwrap(), pi, &cstr(n))?;
+                self.got(e.inode);
                 Ok(Self::kind_of(&e.attr))
             }
             "link" => {
@@ -596,6 +631,7 @@ impl<'a> Ovl<'a> {
                 let (p, n) = Self::split(w[2]);
                 let pi = self.walk(p)?;
                 let e = self.fs.link(c, si, pi, &cstr(n))?;
+                self.got(e.inode);
                 Ok(Self::kind_of(&e.attr))
             }
             "unlink" | "rmdir" => {
@@ -684,8 +720,9 @@ impl<'a> Ovl<'a> {
             }
             // ---- entry points without a model operation of their own (predicate-only blocks)
             "forget" | "bforget" => {
+                // "all": the count the client holds (as the kernel sends it); a number: that count
                 let i = self.walk(w[1])?;
-                let n: u64 = w[2].parse().unwrap();
+                let n: u64 = if w[2] == "all" { self.cnt.borrow_mut().remove(&i).unwrap_or(0) } else { w[2].parse().unwrap() };
                 if w[0] == "forget" {
                     self.fs.forget(c, i, n);
                 } else {
@@ -766,6 +803,7 @@ impl<'a> Ovl<'a> {
                 let mode = u32::from_str_radix(w[3], 16).unwrap();
                 let args = CreateIn { flags: parse_flags(w[2]) as u32, mode: libc::S_IFREG | mode, umask: 0, fuse_flags: 0 };
                 let (e, h, _, _) = self.fs.create(c, pi, &cstr(n), args)?;
+                self.got(e.inode);
                 if let Some(h) = h {
                     let _ = self.fs.release(c, e.inode, 0, h, false, false, None);
                 }
@@ -775,17 +813,21 @@ impl<'a> Ovl<'a> {
                 // lookup of a raw name (".", "..", "", "a/b") under a directory
                 let i = self.walk(w[1])?;
                 let name = if w.len() > 2 { w[2] } else { "" };
-                let e = self.fs.lookup(c, i, &cstr(name))?;
+                let e = self.lk(i, &cstr(name))?;
                 Ok(Self::kind_of(&e.attr))
             }
             "mkdirname" | "createname" | "unlinkname" | "rmdirname" => {
                 let i = self.walk(w[1])?;
                 let name = if w.len() > 2 { w[2] } else { "" };
                 match w[0] {
-                    "mkdirname" => self.fs.mkdir(c, i, &cstr(name), 0o755, 0).map(|e| Self::kind_of(&e.attr)),
+                    "mkdirname" => self.fs.mkdir(c, i, &cstr(name), 0o755, 0).map(|e| {
+                        self.got(e.inode);
+                        Self::kind_of(&e.attr)
+                    }),
                     "createname" => {
                         let args = CreateIn { flags: (libc::O_RDWR | libc::O_CREAT | libc::O_EXCL) as u32, mode: libc::S_IFREG | 0o644, umask: 0, fuse_flags: 0 };
                         self.fs.create(c, i, &cstr(name), args).map(|(e, h, _, _)| {
+                            self.got(e.inode);
                             if let Some(h) = h {
                                 let _ = self.fs.release(c, e.inode, 0, h, false, false, None);
                             }
@@ -860,11 +902,11 @@ fn run_case(lines: &[String], scratch: &Path, out: &mut impl Write) {
             return;
         }
     };
-    let o = Ovl { fs: &fs, ctx: Context::default(), noopen: cfg.contains('o'), noopendir: cfg.contains('d') };
+    let o = Ovl { fs: &fs, ctx: Context::default(), noopen: cfg.contains('o'), noopendir: cfg.contains('d'), cnt: Default::default() };
     // the restarted view before any operation is computed first, on untouched directories
     if restart {
         match new_overlay(&dirs, has_upper, &cfg) {
-            Ok(f2) => writeln!(out, "restart {}", Ovl { fs: &f2, ctx: Context::default(), noopen: cfg.contains('o'), noopendir: cfg.contains('d') }.dump(&names)).unwrap(),
+            Ok(f2) => writeln!(out, "restart {}", Ovl { fs: &f2, ctx: Context::default(), noopen: cfg.contains('o'), noopendir: cfg.contains('d'), cnt: Default::default() }.dump(&names)).unwrap(),
             Err(e) => writeln!(out, "restart !mountfail{}", errno(&e)).unwrap(),
         }
     }
@@ -883,7 +925,7 @@ fn run_case(lines: &[String], scratch: &Path, out: &mut impl Write) {
             writeln!(out, "view {}", v).unwrap();
             if restart {
                 match new_overlay(&dirs, has_upper, &cfg) {
-                    Ok(f2) => writeln!(out, "restart {}", Ovl { fs: &f2, ctx: Context::default(), noopen: cfg.contains('o'), noopendir: cfg.contains('d') }.dump(&names)).unwrap(),
+                    Ok(f2) => writeln!(out, "restart {}", Ovl { fs: &f2, ctx: Context::default(), noopen: cfg.contains('o'), noopendir: cfg.contains('d'), cnt: Default::default() }.dump(&names)).unwrap(),
                     Err(e) => writeln!(out, "restart !mountfail{}", errno(&e)).unwrap(),
                 }
             }
